@@ -8,11 +8,11 @@ ID = "C23"
 QUICK_N = 1500
 THOROUGH_N = 30000
 SHARD = 400
-RULE = ("Exhaustive table (both tiers): 13 listener configurations (all interfaces v4 / dual stack, 127.0.0.1, ::1, "
+RULE = ("Exhaustive table (both tiers): 16 listener configurations (incl. instances whose sockets have different ports/hosts; all interfaces v4 / dual stack, 127.0.0.1, ::1, "
         "127.0.0.53, explicit LAN address, scoped link-local, dns and reverse:https servers that listen on both "
         "transports, udp-only servers, several servers, none) x 50 destination spellings (localhost in 6 case/dot "
         "forms, near misses, 127.0.0.0/8 members and neighbours, ::1 in 3 notations, IPv4-mapped, wildcards, the listen "
-        "hosts themselves, unrelated hosts) x {listen port, other port} x {tcp, udp}. Random stream: random "
+        "hosts themselves, unrelated hosts) x {every listening port of the configuration, one other port} x {tcp, udp}. Random stream: random "
         "configuration from the same vocabulary with random ports; host 25% random 127.x.y.z, 15% random-case "
         "localhost with/without dot, 10% mapped loopback, 15% a listen host of the configuration, 15% literal "
         "spellings, 20% other addresses/names. Non-trivial = some listener matches port or the call was flagged; "
@@ -44,6 +44,11 @@ CONFIGS = [
     [("reverse:udp://example.com:53@8080", [["0.0.0.0", 8080]])],
     [("wireguard@8080", [["0.0.0.0", 8080]])],
     [("regular@9090", [["0.0.0.0", 9090]]), ("socks5@127.0.0.1:8080", [["127.0.0.1", 8080]]), ("dns@5353", [["::", 5353, 0, 0]])],
+    # one instance whose sockets are bound to DIFFERENT ports (listen_port=0 fallback: IPv4 / IPv6 / UDP sockets
+    # get distinct ephemeral ports) and different hosts
+    [("regular@0", [["0.0.0.0", 8080], ["::", 8082, 0, 0]])],
+    [("dns@0", [["0.0.0.0", 8080], ["::", 8082, 0, 0], ["0.0.0.0", 8084], ["::", 8086, 0, 0]])],
+    [("reverse:https://example.com@0", [["127.0.0.1", 8080], ["::1", 8082, 0, 0]]), ("socks5@0", [["192.168.1.5", 8084], ["127.0.0.53", 8086]])],
     [],
 ]
 MODES = ["regular", "socks5", "transparent", "upstream:http://example.com:3128", "reverse:http://example.com",
@@ -138,9 +143,9 @@ def _rand_host(rng, cfg):
 def gen(rng, n, tier):
     out = []
     for cfg in CONFIGS:
-        lp = cfg[-1][1][0][1] if cfg else 8080
+        lps = sorted({a[1] for _, addrs in cfg for a in addrs}) or [8080]      # EVERY listening port, and one other
         for host in HOSTS + [a[0] for _, addrs in cfg for a in addrs]:
-            for port in (lp, lp + 1):
+            for port in lps + [lps[-1] + 1]:
                 for tr in ("tcp", "udp"):
                     out.append(_case(cfg, host, port, tr))
     for _ in range(n):
@@ -148,11 +153,12 @@ def gen(rng, n, tier):
         for i in range(rng.weighted([(1, 0), (5, 1), (3, 2), (2, 3)])):
             p = rng.choice(PORTS)
             addrs = []
-            for _ in range(rng.randint(1, 2)):
+            for _ in range(rng.weighted([(4, 1), (4, 2), (2, 3), (1, 4)])):
                 h = rng.choice(LISTEN_HOSTS)
-                addrs.append([h, p, 0, rng.below(3)] if ":" in h else [h, p])
+                q = rng.choice(PORTS) if rng.chance(0.4) else p          # sockets of one instance may differ in port
+                addrs.append([h, q, 0, rng.below(3)] if ":" in h else [h, q])
             cfg.append((f"{rng.choice(MODES)}@{10000 + 7 * len(out) % 50000 + i}", addrs))
-        port = rng.choice(cfg)[1][0][1] if cfg and rng.chance(0.8) else rng.choice(PORTS)
+        port = rng.choice(rng.choice(cfg)[1])[1] if cfg and rng.chance(0.8) else rng.choice(PORTS)   # any socket, not the first
         out.append(_case(cfg, _rand_host(rng, cfg), port, "tcp" if rng.chance(0.6) else "udp"))
     return out
 
@@ -244,7 +250,10 @@ def classify(case, obs):
     host = case["host"]
     fam = "literal" if host in LITERALS else family(host) or ("listen-host" if any(a[0] == host for ad in obs["addrs"] for a in ad) else "other")
     den = denoting_listeners(obs, host, case["port"], case["tr"]) if "raised" not in obs else []
+    ports = {a[1] for ad in obs["addrs"] for a in ad}
+    first = {ad[0][1] for ad in obs["addrs"] if ad}
     return [f"host:{fam}", case["tr"], f"servers={len(case['servers'])}",
+            "port:first-socket" if case["port"] in first else "port:later-socket" if case["port"] in ports else "port:none",
             "raised" if "raised" in obs else "flagged" if obs["error"] else "passed",
             "denotes-listener" if den else "no-listener-denoted",
             "both-transport-server" if "both" in obs["transports"] else "single-transport-servers"]
